@@ -1660,7 +1660,7 @@ class BSP:
 
                 else:
                     # Normal lump, pakfiles can't be compressed.
-                    if lump.is_compressed and lump_name is not BSP_LUMPS.PAKFILE:
+                    if lump.is_compressed and lump.data and lump_name is not BSP_LUMPS.PAKFILE:
                         lump_fourcc = len(lump.data)
                         print('Compress: ', lump.type)
                         lump_data = compress_lzma(lump.data)
